@@ -1,7 +1,7 @@
 ---------------------------- MODULE TypeAlg_Class ----------------------------
 (* C14: copy/drop classification.  Enumerates every type up to a nesting depth over
        int nat float bool str None qubit, four type variables (one per (copyable,
-       droppable) bound), array[.,2], frozenarray[.,2], Option[.], tuples, non-generic
+       droppable) bound), array[.,2], frozenarray[.,2], Option[.], Either[.,.], tuples, non-generic
        structs ("rec"), the generic structs of TypeAlg!GStruct and Callable types,
    classifies each with TypeAlg!Copyable/Droppable/WellFormed, checks the structural laws
    below on all of them and prints one record per type; checks/C14.py builds the same type
@@ -38,7 +38,16 @@ Closed(S) == {x \in S : BoundIdxT(x) = {}}
 Recs(S, lo, hi) == {TRec(s) : s \in Seqs(Closed(S), lo, hi)}
 Fns(S) == {TFn(s, o) : s \in Seqs(S, 0, 1), o \in S}
 
-L2 == L1 \cup Unary(L1) \cup Tuples(L1, 0, TupW) \cup Recs(L1, 0, 2) \cup Fns(L1)
+Eithers(S, T) == {TEither(a, b) : a \in S, b \in T} \cup {TEither(b, a) : a \in S, b \in T}
+\* sums with the affine (or linear) component in each variant position, also nested: these
+\* are the types whose Hugr sum has the interesting row first, last, or one level down
+SumParts == {TArr(TInt, N2), TOpt(TArr(TInt, N2)), TTup(<<TInt, TArr(TInt, N2)>>),
+             TTup(<<TArr(TBool, N2), TInt>>), TEither(TArr(TInt, N2), TInt), TEither(TInt, TArr(TInt, N2)), VD}
+SumOthers == {TInt, TNone, TArr(TBool, N2), TTup(<<TInt, TFloat>>), TQubit}
+SumNest == Eithers(SumParts, SumOthers)
+           \cup {TOpt(e) : e \in Eithers(SumParts, SumOthers)}
+           \cup {TTup(<<TInt, e>>) : e \in Eithers(SumParts, {TInt, TNone})}
+L2 == L1 \cup Unary(L1) \cup Tuples(L1, 0, TupW) \cup Recs(L1, 0, 2) \cup Fns(L1) \cup Eithers(L1, L1) \cup SumNest
 Core == L1 \cup Unary(L1) \cup Tuples(L1, 1, 1) \cup Recs(L1, 1, 1)
 L3 == L2 \cup Unary(L2) \cup Tuples(Core, 2, 2) \cup Recs(Core, 2, 2) \cup Fns(Core)
 Types == IF Depth = 2 THEN L2 ELSE L3
@@ -53,6 +62,11 @@ Spec == Init /\ [][Next]_t
 TupleLaw == t[1] = "tup" =>
     /\ Copyable(t) = (\A k \in DOMAIN t[3] : Copyable(t[3][k]))
     /\ Droppable(t) = (\A k \in DOMAIN t[3] : Droppable(t[3][k]))
+\* Either: exactly when both sides are
+EitherLaw == t[1] = "either" =>
+    /\ Copyable(t) = (Copyable(t[2]) /\ Copyable(t[3]))
+    /\ Droppable(t) = (Droppable(t[2]) /\ Droppable(t[3]))
+    /\ HugrRepCopyable(t) = (HugrRepCopyable(t[2]) /\ HugrRepCopyable(t[3]))
 \* arrays are never copyable, droppable with their element
 ArrayLaw == t[1] = "arr" => ~Copyable(t) /\ Droppable(t) = Droppable(t[2])
 \* a well-formed frozenarray is both
@@ -65,6 +79,7 @@ HoldsQubit(x) ==
     CASE x[1] = "qubit" -> TRUE
       [] x[1] = "tup" -> \E k \in DOMAIN x[3] : HoldsQubit(x[3][k])
       [] x[1] \in {"arr", "farr", "opt"} -> HoldsQubit(x[2])
+      [] x[1] = "either" -> HoldsQubit(x[2]) \/ HoldsQubit(x[3])
       [] x[1] = "rec" -> \E k \in DOMAIN x[2] : HoldsQubit(x[2][k])
       [] x[1] = "st" -> x[2] = "GQ" \/ \E k \in DOMAIN x[3] : x[3][k][1] = "T" /\ HoldsQubit(x[3][k][2])
       [] OTHER -> FALSE
@@ -105,8 +120,18 @@ HugrSafe == WellFormed(t) => (Copyable(t) => HugrRepCopyable(t))
 HugrConverseOnlyPhantom ==
     (WellFormed(t) /\ HugrRepCopyable(t) /\ ~Copyable(t)) => Phantoms(t) # {}
 
+\* some Either inside t has the part that needs a drop in its FIRST variant only
+RECURSIVE SumFirst(_)
+SumFirst(x) ==
+    CASE x[1] = "either" -> (~HugrRepCopyable(x[2]) /\ HugrRepCopyable(x[3])) \/ SumFirst(x[2]) \/ SumFirst(x[3])
+      [] x[1] = "tup" -> \E k \in DOMAIN x[3] : SumFirst(x[3][k])
+      [] x[1] \in {"arr", "farr", "opt"} -> SumFirst(x[2])
+      [] x[1] = "rec" -> \E k \in DOMAIN x[2] : SumFirst(x[2][k])
+      [] x[1] = "st" -> \E k \in DOMAIN x[3] : x[3][k][1] = "T" /\ SumFirst(x[3][k][2])
+      [] OTHER -> FALSE
+
 Emit == PrintT(ToJson([t |-> t, wf |-> WellFormed(t), cop |-> Copyable(t), drop |-> Droppable(t),
-                       hugrcop |-> HugrCopyable(t), repcop |-> HugrRepCopyable(t), phantoms |-> Phantoms(t),
+                       hugrcop |-> HugrCopyable(t), sumfirst |-> SumFirst(t), repcop |-> HugrRepCopyable(t), phantoms |-> Phantoms(t),
                        leaves |-> IF WellFormed(t) /\ Affine(t) THEN DropLeaves(t, <<>>) ELSE <<>>,
                        whole |-> IF WellFormed(t) /\ Affine(t) THEN DropWhole(t) ELSE <<>>]))
 =============================================================================
